@@ -327,6 +327,8 @@ def gen_gen_job(ch, jid, label):
             "decorators": ch.choice(label + ".dec", [None, ["dataclass"], ["dataclass", "final"]]),
             "emit_call": ch.chance(label + ".call", 0.3), "name_tpl": ch.choice(label + ".tpl", ["{name}Config", "Gen{name}"]),
             # imports taken over from a file (root-level imports, some of them inside try / if blocks)
+            # text put in front of the generated module (it may import names; doctrans evaluates it when an imports file is given too)
+            "prepend": ch.choice(label + ".prepend", [None, None, "from typing import List, Optional\n", "import os\n\nHERE = os.getcwd()\n"]),
             "imports": ch.choice(label + ".imports", [None, "import os\nfrom typing import Optional\n", "import sys\n\ntry:\n    import json\nexcept ImportError:\n    json = None\n"])}
 
 
@@ -865,7 +867,7 @@ class Replica(object):
                 try:
                     with contextlib.redirect_stdout(io.StringIO()), contextlib.redirect_stderr(io.StringIO()):
                         self.ns.gen.gen(name_tpl=job["name_tpl"], input_mapping=mod + ".MAPPING", type_=job["type"], output_filename=outp,
-                                        emit_call=job["emit_call"], decorator_list=job["decorators"], imports_from_file=imports_file)
+                                        emit_call=job["emit_call"], decorator_list=job["decorators"], imports_from_file=imports_file, prepend=job.get("prepend"))
                     with open(outp, "rt") as f:
                         tree = ast.parse(f.read())
                     want = job["name_tpl"].format(name=job["pick"])
